@@ -1178,6 +1178,10 @@ class Key(object):
         else:
             raise BKeyError("Cannot import key. Public key format unknown")
 
+        if self.is_private and (self.secret < 1 or (self.secret >= secp256k1_n and len(self.private_byte) <= 32)):
+            # (64-byte private input is reduced modulo n, see test_private_key_import_hex)
+            raise BKeyError("Private key must be an integer in the range [1, n-1] where n is the secp256k1 group order")
+
         if self.is_private and not (self.public_byte or self.public_hex):
             if not self.is_private:
                 raise BKeyError("Private key has no known secret number")
